@@ -755,7 +755,7 @@ func genStoreBig(c *Ctx, profile string) {
 
 func genStore(c *Ctx, profile string) {
 	genStoreBig(c, profile)
-	n := map[string]int{"quick": 60, "thorough": 900}[c.Tier]
+	n := map[string]int{"quick": 200, "thorough": 900}[c.Tier]
 	if n == 0 {
 		n = 60
 	}
